@@ -110,6 +110,36 @@ func VerifH_C03_table() {
 	vC03Field(hp, t, vPick(3, 5))
 }
 
+// A block that consists of exactly one dynamic table size update whose
+// integer takes 1..11 bytes (every value up to 2^64 and beyond), from a decoder
+// state with one entry: accepted exactly when the value is within the
+// advertised limit, and then the table is resized and evicted like the
+// reference's.
+//
+//verif:harness prop=C03 unwind=24 timeout=300
+func VerifH_C03_update() {
+	hp, t := vC03State(1)
+	n := vRange(1, 11)
+	b := vBytes(n)
+	vAssume(b[0]&0xe0 == 0x20)
+	for i := 1; i < n; i++ {
+		vAssume((b[i]&0x80 != 0) == (i < n-1)) // one integer, nothing after it
+	}
+	vAssume(n == 1 || b[0]&0x1f == 0x1f)
+	hf := &HeaderField{}
+	_, upd, used, st := refHpackRep(t, true, b)
+	rest, err := hp.nextField(hf, true, 0, b)
+	if st == refOK {
+		vAssert(upd && used == n, "C03.update.ref-shape")
+		vAssert(err == nil && len(rest) == 0, "C03.update.rejects-valid")
+		vAssert(refTableIs(t, hp) && hp.maxTableSize == t.max, "C03.update.table")
+	} else {
+		vAssert(err != nil, "C03.update.accepts-invalid")
+	}
+	vCover("C03.update.above-2^32", st == refInvalid && n == 6)
+	vCover("C03.update.evicts", st == refOK && len(t.ents) == 0 && n == 1)
+}
+
 func vC03Field(hp *HPACK, t *refTable, maxLen int) {
 	blockStart := vBool()
 	fieldsProcessed := int(vU8() & 1)
